@@ -547,6 +547,16 @@ func checkNonceSurvivesReload(c *Ctx, rule string) {
 			for _, st := range runtimeStateStores(fn) {
 				_, f, _ := fieldAddrName(st.Addr.(*ssa.FieldAddr))
 				mt, ok := st.Val.Type().Underlying().(*types.Map)
+				if !ok {
+					// a whole group of fields swapped in at once (an embedded struct): the map it carries
+					if sty, isStruct := st.Val.Type().Underlying().(*types.Struct); isStruct {
+						for i := 0; i < sty.NumFields(); i++ {
+							if m2, isMap := sty.Field(i).Type().Underlying().(*types.Map); isMap && namedName(m2.Elem()) == "HMACAuth" {
+								mt, ok, f = m2, true, sty.Field(i).Name()
+							}
+						}
+					}
+				}
 				if !ok || namedName(mt.Elem()) != "HMACAuth" {
 					continue
 				}
@@ -570,7 +580,7 @@ func checkNonceSurvivesReload(c *Ctx, rule string) {
 							}
 						}
 						if lk, ok := a.(*ssa.Lookup); ok {
-							if tn, ff, ok := fieldOfLoad(lk.X); ok && tn == "runtimeState" && ff == f {
+							if root, ff, ok := fieldPathRootOfLoad(lk.X); ok && root == "runtimeState" && ff == f {
 								okCall = true
 							}
 						}
@@ -601,4 +611,27 @@ func sameMapEntry(exp, key ssa.Value) bool {
 		return true
 	}
 	return false
+}
+
+// fieldPathRootOfLoad: v loads field F through a chain of (embedded) struct fields; returns the type the chain is
+// rooted at and the innermost field name.
+func fieldPathRootOfLoad(v ssa.Value) (root, field string, ok bool) {
+	u, isLoad := v.(*ssa.UnOp)
+	if !isLoad || u.Op != token.MUL {
+		return "", "", false
+	}
+	fa, isFA := u.X.(*ssa.FieldAddr)
+	if !isFA {
+		return "", "", false
+	}
+	tn, f, _ := fieldAddrName(fa)
+	for {
+		inner, more := fa.X.(*ssa.FieldAddr)
+		if !more {
+			break
+		}
+		fa = inner
+		tn, _, _ = fieldAddrName(fa)
+	}
+	return tn, f, true
 }
